@@ -422,7 +422,7 @@ DIVERGENCE_CLASS = 'no_fixed_point_nonmonotone_untyped_assignment'
 UNBOUNDED_CLASS = 'no_fixed_point_unbounded_product_types'
 CLASS_ORDER = ['retyped_by_untracked_binder', 'retyped_by_untyped_assignment', 'nonlocal_rebound_in_callee',
                'retyped_by_local_call_side_effect', 'captured_var_rebound_by_calling_statement',
-               'local_function_called_from_sibling']
+               'local_function_called_from_sibling', 'starred_target_typed_by_position']
 
 
 def compute_taint(an):
@@ -526,6 +526,12 @@ def compute_taint(an):
                         for x in stored_names(a):
                             if x not in news_cache[d['id']]:
                                 changed |= add(x, ['retyped_by_untyped_assignment'])
+                        # a pattern with a starred element is typed by position: wrong for the starred name and after it
+                        for t in a.targets:
+                            for pat in ast.walk(t):
+                                if isinstance(pat, (ast.Tuple, ast.List)) and any(isinstance(e, ast.Starred) for e in pat.elts):
+                                    for x in stored_names(pat):
+                                        changed |= add(x, ['starred_target_typed_by_position'])
                     continue
                 for x in stored_names(a):
                     changed |= add(x, ['retyped_by_untracked_binder'])
